@@ -198,6 +198,23 @@ func runRoundScenario(seed uint64, size int, t *Trace) error {
 		}
 		plans := make([]plan, nsrv)
 		off := origin + uint32(r.Intn(20)) - uint32(r.Intn(3))
+		// the latest reading the round is started with, relative to the window the replies describe: inside it,
+		// exactly at its end (4031/4032/4033 slots ahead), far ahead, and behind its start (unsigned wrap)
+		lat := latest
+		switch r.pick([]int{60, 8, 8, 8, 6, 5, 5}) {
+		case 1:
+			lat = off + 4031
+		case 2:
+			lat = off + 4032
+		case 3:
+			lat = off + 4033
+		case 4:
+			lat = off + 4032 + uint32(r.Intn(5000))
+		case 5:
+			off = latest + 1 + uint32(r.Intn(3)) // window starts after the latest reading
+		case 6:
+			off = latest - 4032 - uint32(r.Intn(3))
+		}
 		for i := range fs {
 			var bits [504]byte
 			for k := 0; k < 504; k++ {
@@ -301,7 +318,7 @@ func runRoundScenario(seed uint64, size int, t *Trace) error {
 		}()
 		sink.take()
 		t0 := time.Now().Unix()
-		ok := c.VerifSyncRound(latest)
+		ok := c.VerifSyncRound(lat)
 		sink.settle(40*time.Millisecond, 600*time.Millisecond)
 		close(stop)
 		wg.Wait()
@@ -339,7 +356,7 @@ func runRoundScenario(seed uint64, size int, t *Trace) error {
 		}
 		t.Count("round:" + res)
 		t.Count(fmt.Sprintf("round.attempts:%d", len(acceptLog)))
-		t.Line("cl.round latest=%d now=%d choices=%s => %s lockfree=%d sigs=%v gk=%s id=%d servers=%s disk=[%s] resent=%s", latest, t0, strings.Join(choices, ";"),
+		t.Line("cl.round latest=%d now=%d choices=%s => %s lockfree=%d sigs=%v gk=%s id=%d servers=%s disk=[%s] resent=%s", lat, t0, strings.Join(choices, ";"),
 			res, lf, idOK, hx(after.GCAPubKey[:]), after.ShortID, canonClientServers(after.Servers), canonClientDisk(dir), strings.Join(resent, ","))
 		if after.GCAPubKey != curGCA.Pub {
 			curGCA = newGCA
